@@ -634,6 +634,9 @@ def event_inputs_to_events(
                     ]
                 )
             )
+        # the logic gate tree must be calculated from the loaded event sets
+        if event.event_sets:
+            event._update_since_logic_gate_tree = True
         events[eventInput.eventType] = event
     return events
 
